@@ -76,9 +76,9 @@ def acc(index, rep):
         def is_row(e_):
             """the loop's row, possibly handed through the routines that return the (customised / verified) row"""
             if isinstance(e_, ast.Name):
-                return row_var is None or e_.id == row_var
+                return row_var is not None and e_.id == row_var
             return isinstance(e_, ast.Call) and isinstance(e_.func, ast.Attribute) and e_.func.attr in ("apply_custom_parameters", "verify_country_data", "copy") \
-                and bool(e_.args or e_.func.attr == "copy") and is_row(e_.args[0] if e_.args else e_.func.value)
+                and (any(is_row(a_) for a_ in list(e_.args) + [k_.value for k_ in e_.keywords]) if (e_.args or e_.keywords) else is_row(e_.func.value))
         try:
             k_ = ast.parse(src, mode="eval").body
         except SyntaxError:
